@@ -231,6 +231,31 @@ def check_stages(case):
         out.fail("state_modified_direct", "iterator modified the state vector it was given")
     if dtr != dt:
         out.fail("dt_returned", "iterator returned dt %r, f proposed %r" % (dtr, dt))
+    # right-hand sides that hand back the state they were given (x' = x written as `return x`) or a view of it (x1' = x2, x2' = x1
+    # written as `return x[::-1]`): the derivative then IS the caller's state vector, which the iterator must still leave alone
+    for kind, rhs in (("state_itself", lambda x: x), ("view_of_state", lambda x: x[::-1])):
+        X2 = np.array(case["x0"], dtype=float)
+        X2copy = X2.copy()
+
+        def f2(tt, x, getDt=False, rhs=rhs):
+            d = rhs(x)
+            return (d, dt) if getDt else d
+
+        Xn2, _ = fn(f2, t, X2, upd)
+        if X2.tobytes() != X2copy.tobytes():
+            out.fail("state_modified_direct", "%s modified the state vector it was given when the right-hand side returns %s: %r became %r" % (it, "its argument" if kind == "state_itself" else "a view of its argument", Xcopy.tolist(), X2.tolist()), rhs=kind)
+            continue
+        c = lambda x: np.array(rhs(x), dtype=float)      # reference step on copies
+        if it == "euler":
+            ref = X2copy + c(X2copy) * dt
+        else:
+            k1 = c(X2copy)
+            k2 = c(X2copy + k1 * dt / 2)
+            k3 = c(X2copy + k2 * dt / 2)
+            k4 = c(X2copy + k3 * dt)
+            ref = X2copy + (k1 + 2 * k2 + 2 * k3 + k4) / 6 * dt
+        if not np.allclose(np.asarray(Xn2, dtype=float), ref, rtol=1e-12, atol=1e-300):      # atol: subnormal initial values round at 5e-324
+            out.fail("step_differs_from_documented_formula", "%s with a right-hand side returning %s: step gives %r, the documented formula %r" % (it, kind, np.asarray(Xn2).tolist(), ref.tolist()), rhs=kind)
     # through the solver: one model step
     fam_case = dict(case)
     entry = case.get("entry", "direct")
@@ -327,6 +352,6 @@ def clauses():
                     "constant step through getDt, three resolutions h,h/2,h/4, through solve() of the model or of a Coupler wrapping it (alone or next to a second model) with duration = (n + tail) steps (tail in {0, 1e-3..0.5}) and minDtFrac in {1e-12, 1e-8, 2 tail/n, 0.1/n}; non-trivial: non-autonomous family judged inside the asymptotic window",
                shrink=False),
         Clause("stages", _stage_case, check_stages, quick=2000, thorough=60000,
-               rule="generator: iterator x t0 in [0,1e6] x dt in [1e-6,1e3] x state length 1-5; the iterator is called directly with a recording f and through solve() of the model or of a Coupler wrapping it; "
+               rule="generator: iterator x t0 in [0,1e6] x dt in [1e-6,1e3] x state length 1-5; the iterator is called directly with a recording f, with right-hand sides returning the state itself or a view of it (state unchanged bitwise, step = documented formula on copies), and through solve() of the model or of a Coupler wrapping it; "
                     "non-trivial: RK4 with dt resolvable against t"),
     ]
